@@ -1650,7 +1650,7 @@ class EventType(VersionedOntologyElement, MutableMapping):
                                 name='id'
                             ),
                             e.data(
-                                e.param('4', name='minLength'),
+                                e.param('1', name='minLength'),
                                 type='base64Binary'
                             ),
                             name=attachment_name
